@@ -3,7 +3,7 @@ import glob, json, os, subprocess, sys, tempfile, shutil
 HERE = os.path.dirname(os.path.dirname(os.path.abspath(__file__)))
 PIDS = ['C%02d' % i for i in range(1, 21)]
 for pid in sys.argv[1:]:
-    for sd in sorted(glob.glob('/tmp/seed6/%s/out/[0-9]*' % pid)):
+    for sd in sorted(glob.glob('/tmp/seed7/%s/out/[0-9]*' % pid)):
         patch = os.path.join(sd, 'patch.diff')
         if not os.path.exists(patch):
             continue
